@@ -596,6 +596,65 @@ def extract_decl_array(repo):
     return ctext, line, dropped
 
 
+SIG_INIT = r'\bvoid\s+PromelaDataModel::init\s*\(\s*const\s+std::string\s*&\s*location\s*,\s*const\s+Data\s*&\s*data\s*,[^)]*\)\s*'
+
+
+def extract_init_slice(repo):
+    """PromelaDataModel::init (a <data> element), sliced to the decision whether the declared variable is assigned:
+         { .. evaluateDecl(parser.ast); }          -> dropped (std::string handling of the type attribute); must contain evaluateDecl(
+         PromelaParser parser(location);           -> dropped
+         Data d = Data::fromJSON(data);            -> dropped; `d.empty()` becomes the free input json_empty
+         data.atom.size() -> atom_len, data.type == Data::INTERPRETED -> interpreted,
+         data.empty() -> (atom_len == 0 && !other_content)      (Data::empty(): no atom, compound, array, binary, node)
+         setVariable(parser.ast, ..);              -> STOREV (counts the assignments)
+       Anything else in the if/else chain: ExtractionError."""
+    path = os.path.join(repo, SRC)
+    first, last, sigtext, body = rules.find_function(path, SIG_INIT)
+    stmts = parse_stmts(re.sub(r'//[^\n]*', '', body))
+    if not stmts or stmts[0][0] != 'block' or not any(st[0] == 'simple' and re.match(r'^evaluateDecl\s*\(', st[1]) for st in stmts[0][1]):
+        raise rules.ExtractionError('init: does not start with the block that declares the variable (evaluateDecl)')
+    dropped = [{'what': 'declaration block (std::string handling of the type attribute, PromelaParser, evaluateDecl)', 'text': '%d statements' % len(stmts[0][1])}]
+    nstores = [0]
+
+    def cond(c):
+        c = ' '.join(c.split())
+        c = re.sub(r'\bdata\.atom\.size\(\)', 'atom_len', c)
+        c = re.sub(r'\bdata\.type == Data::INTERPRETED\b', 'interpreted', c)
+        c = re.sub(r'\bdata\.empty\(\)', '(atom_len == 0 && !other_content)', c)
+        c = re.sub(r'\bd\.empty\(\)', 'json_empty', c)
+        if not re.match(r'^[\s\w<>=!&|()]*$', c) or re.search(r'\b(?!atom_len\b|interpreted\b|other_content\b|json_empty\b|\d+\b)[A-Za-z_]\w*', c):
+            raise rules.ExtractionError('init: condition outside the rules: ' + c)
+        return c
+
+    def walk(sts, ind):
+        out = []
+        for st in sts:
+            if st[0] == 'block':
+                out.append(ind + '{\n' + walk(st[1], ind + '  ') + ind + '}\n')
+            elif st[0] == 'if':
+                out.append(ind + 'if (%s)\n' % cond(st[1]) + walk(st[2], ind + '  '))
+                if st[3]:
+                    out.append(ind + 'else\n' + walk(st[3], ind + '  '))
+            else:
+                t = st[1]
+                if re.match(r'^setVariable\(\s*parser\.ast\s*,.*\);$', t):
+                    nstores[0] += 1
+                    out.append(ind + 'STOREV;\n')
+                elif re.match(r'^Data d = Data::fromJSON\(data\);$', t) or re.match(r'^PromelaParser parser\(location\);$', t):
+                    dropped.append({'what': 'statement that does not decide whether the variable is assigned', 'text': t})
+                    out.append(ind + ';\n')
+                else:
+                    raise rules.ExtractionError('init: statement outside the rules: ' + t)
+        return ''.join(out)
+    ctext = walk(stmts[1:], '  ')
+    if not nstores[0]:
+        raise rules.ExtractionError('init: no setVariable(parser.ast, ..) found')
+    line = first
+    return ('/* %s:%d-%d  PromelaDataModel::init, sliced to the decision whether the declared variable is assigned */\n'
+            'int verif_storev;\n#define STOREV (verif_storev++)\n'
+            'static void init_slice(size_t atom_len, int interpreted, int other_content, int json_empty) {\n%s}\n' % (SRC, first, last, ctext)), (first, last), dropped
+
+
 def extract(repo):
     path = os.path.join(repo, SRC)
     first, last, sig, body = rules.find_function(path, SIG)
@@ -637,6 +696,8 @@ def extract(repo):
     res['dataToBool_lines'] = d2b_lines
     al_code, al_line, al_dropped = extract_array_len_guard(repo)
     da_code, da_line, da_dropped = extract_decl_array(repo)
+    in_code, in_lines, in_dropped = extract_init_slice(repo)
+    res['init_slice'] = {'lines': in_lines, 'dropped': in_dropped}
     res['decl_array'] = {'line': da_line, 'dropped': da_dropped}
     res['array_len_guard'] = {'function': 'setVariable', 'line': al_line, 'dropped': al_dropped}
     res['c'] = ('/* GENERATED on every run by engines/extract/pml_extract.py from %s */\n'
@@ -661,7 +722,7 @@ def extract(repo):
                 '  __CPROVER_requires(index <= 2147483647)\n'
                 '  __CPROVER_assigns(verif_n, verif_deref)\n'
                 '  __CPROVER_ensures(verif_n > index && verif_n >= __CPROVER_old(verif_n))\n;\n'
-                % (SRC, ', '.join('%s = %d' % (e, 300 + i) for i, e in enumerate(enum)))) + d2b + '\n' + idx_code + '\n' + al_code + '\n' + res['data_subscript'] + '\n' + '\n'.join(code) + '\n' + da_code
+                % (SRC, ', '.join('%s = %d' % (e, 300 + i) for i, e in enumerate(enum)))) + d2b + '\n' + idx_code + '\n' + al_code + '\n' + res['data_subscript'] + '\n' + '\n'.join(code) + '\n' + da_code + '\n' + in_code
     return res
 
 
